@@ -438,6 +438,31 @@ fn operand_j<'tcx>(tcx: TyCtxt<'tcx>, owner: DefId, body: &Body<'tcx>, op: &Oper
                     }
                     if let Const::Unevaluated(u, _) = c.const_ {
                         o.put("const_def", J::s(&tcx.def_path_str(u.def)));
+                        // `&Enum::Variant` / `&Struct {}` promoted to a constant: say which
+                        if let Some(pi) = u.promoted {
+                            if u.def.is_local() {
+                                let proms = tcx.promoted_mir(u.def);
+                                if let Some(pb) = proms.get(pi) {
+                                    for bbd in pb.basic_blocks.iter() {
+                                        for st in bbd.statements.iter() {
+                                            if let StatementKind::Assign(bx) = &st.kind {
+                                                if let Rvalue::Aggregate(k, ops) = &bx.1 {
+                                                    if let AggregateKind::Adt(d, vi, _, _, _) = &**k {
+                                                        if ops.is_empty() {
+                                                            let adt = tcx.adt_def(*d);
+                                                            let mut pa = J::obj();
+                                                            pa.put("adt", J::s(&tcx.def_path_str(*d)));
+                                                            pa.put("variant", J::s(adt.variant(*vi).name.as_str()));
+                                                            o.put("promoted_agg", pa);
+                                                        }
+                                                    }
+                                                }
+                                            }
+                                        }
+                                    }
+                                }
+                            }
+                        }
                     }
                 }
             }
